@@ -308,6 +308,8 @@ def _seq_ops(ops):
     for op in ops:
         if op[0] == "par_scan":
             out.extend(["scan", op[1], j[0], j[1]] for j in op[2])
+        elif op[0] == "abort_scan":
+            out.append(["scan", op[1], op[2], op[3]])
         else:
             out.append(op)
     return out
@@ -353,7 +355,7 @@ def mechanism_c09(scn, test):
     def seq(t):
         for w in t["worlds"]:
             w["ops"] = _seq_ops(w["ops"])
-    attempt("schedule", seq, any(op[0] == "par_scan" for w in ws for op in w["ops"]))
+    attempt("schedule-or-abort", seq, any(op[0] in ("par_scan", "abort_scan") for w in ws for op in w["ops"]))
     if len(scn["worlds"]) > 1:
         def same_ops(t):
             for w in t["worlds"][1:]:
@@ -507,6 +509,7 @@ def run_check(prop, tier, master, only_index=None):
     totals = {}
     fs_totals = {}
     env_totals = {}
+    kernel_totals = {}
     digests = set()
     nontriv = set()
     samples = []
@@ -548,6 +551,7 @@ def run_check(prop, tier, master, only_index=None):
                 add_counters(totals, o.get("counters"))
                 add_counters(fs_totals, o.get("fs"))
                 add_counters(env_totals, o.get("envsim"))
+                add_counters(kernel_totals, o.get("kernel"))
                 for it in o.get("interleavings", []):
                     if it.get("switches"):
                         interleavings.add(it["digest"])
@@ -689,6 +693,7 @@ def run_check(prop, tier, master, only_index=None):
             "fs_counters": fs_totals,
             "clock_and_random_seam": dict(env_totals, note="simulated clock / urandom / random.seed per world; reads by the code under test (0 = the tree consults neither, the seam is inert)"),
             "faults_injected": fault_summary(prop, totals, fs_totals, hashseeds, enum_seeds),
+            "kernel": dict(kernel_totals, note="tier 2: threads started by the code under test become kernel tasks; lib_threads_started = 0 means the tree starts none and the shim is inert"),
             "distinct_interleavings": len(interleavings),
             "distinct_hash_seeds": len(hashseeds),
             "distinct_enum_seeds": len(enum_seeds),
@@ -803,6 +808,7 @@ def fault_summary(prop, totals, fs, hashseeds, enum_seeds):
         "producer_crashes": totals.get("crashes", 0),
         "corruptions": totals.get("corruptions", 0),
         "preemptions": totals.get("preemptions", 0),
+        "scans_aborted_mid_way": totals.get("aborts_injected", 0),
         "hash_seeds": len(hashseeds),
     }
 
